@@ -337,3 +337,11 @@ for part, kick in (("part1", False), ("part2", True)):
         v.prove("each_particle", want(cur(s), j))
         v.prove("masses_untouched", cur(s)[("m",)] == s.old[("m",)])
         v.prove("time", s.r.t == t0 + dt / 2)
+
+
+# ============================================================================ not decided
+P.not_decided.append("size and non-drift of the energy error, 'to rounding error' (dynamics / floating point): not decided")
+P.not_decided.append("per-integrator conservation beyond the sub-steps stated here: kicks need sum m a = 0 (C02), Kepler and jump "
+                     "steps (C03/C12), synchronisation words (C09); angular-momentum conservation of kicks/drifts/Kepler steps is "
+                     "not stated in this pack")
+P.not_decided.append("reb_simulation_com under MPI (compiled out); reb_simulation_move_to_com / move_to_hel (belong to C12)")
